@@ -29,7 +29,10 @@ NFiles == IF Thorough THEN 10 ELSE 6
 Configs ==
     {[op |-> "build", ver |-> v, prevk |-> pk, opt |-> o] : v \in Vers, pk \in {"absent", "present"}, o \in Opts}
     \cup {[op |-> "compact", ver |-> v, prevk |-> "present", opt |-> o] : v \in Vers, o \in Opts}
-    \cup {[op |-> "compact", ver |-> v, prevk |-> "edited", opt |-> "plain"] : v \in {1, 2}}
+    \* previous archive produced by an in-place session (V1/V2: remove; grow = relocated tables; add/remove/rename)
+    \cup {[op |-> "compact", ver |-> v, prevk |-> pk, opt |-> "plain"] : v \in {1, 2}, pk \in {"edited", "grown", "mixed"}}
+    \* compact() called with an unflushed modification (it flushes in place first -- named deviation DirtySession)
+    \cup {[op |-> "compact_dirty", ver |-> v, prevk |-> "present", opt |-> "plain"] : v \in {1, 2}}
 
 Plans == {[op |-> c.op, ver |-> c.ver, prevk |-> c.prevk, opt |-> c.opt, kind |-> Kinds[i],
            stride |-> Stride(Kinds[i]), points |-> FsizePoints, nfiles |-> NFiles]
